@@ -109,7 +109,7 @@ pub fn child_main(spec_path: &str) -> ! {
     std::process::exit(0);
 }
 
-fn run_action(spec: &ChildSpec) -> anyhow::Result<Value> {
+pub fn run_action(spec: &ChildSpec) -> anyhow::Result<Value> {
     match spec.action.as_str() {
         // ---- publisher -------------------------------------------------
         "commit" => {
